@@ -212,6 +212,15 @@ pub struct Located {
 /// next blob right after the last entry; stops at the first clean or damaged blob.
 /// Returns the located entries and a list of format violations (overlaps, misalignment, out of block).
 pub fn scan_block(block: &[u8], blob_index_size: usize) -> (Vec<Located>, Vec<String>) {
+    scan_block_inner(block, blob_index_size, true)
+}
+
+/// The same walk without the sequence rule (classification aids want to SEE sequence regressions).
+pub fn scan_block_raw(block: &[u8], blob_index_size: usize) -> (Vec<Located>, Vec<String>) {
+    scan_block_inner(block, blob_index_size, false)
+}
+
+fn scan_block_inner(block: &[u8], blob_index_size: usize, stop_at_regression: bool) -> (Vec<Located>, Vec<String>) {
     let mut out: Vec<Located> = vec![];
     let mut problems = vec![];
     let mut off = 0usize;
@@ -221,6 +230,13 @@ pub fn scan_block(block: &[u8], blob_index_size: usize) -> (Vec<Located>, Vec<St
             break;
         }
         let mut prev_end = blob_index_size;
+        // sequences never decrease within a block: a blob that starts below the last sequence seen belongs to an
+        // earlier life of the block (the block was cleaned and rewritten up to here) - the scan ends before it
+        if let (Some(first), Some(last)) = (idx.first(), out.last()) {
+            if stop_at_regression && first.sequence < last.sequence {
+                break;
+            }
+        }
         for e in &idx {
             let start = e.offset as usize;
             let alen = (e.len as usize).div_ceil(PAGE) * PAGE;
